@@ -1,12 +1,12 @@
 CONSTANTS
-  FAMILY = "one"
-  D = 4
+  FAMILY = "fv"
+  D = 2
   NV = 1
   DeltaVecs <- DV_std
-  Dists <- Dists_two
-  Lim2 <- Lim2_none
+  Dists <- Dists_sym
+  Lim2 <- Lim2_quick
   MapIds = {1}
-  Conds <- Conds_quick
+  Conds <- Conds_mid
 INIT Init
 NEXT Next
 INVARIANT Sound
